@@ -122,6 +122,37 @@ def run_one(ctl: explorer.Ctl, cfg: Dict[str, Any]) -> Dict[str, Any]:
             return NOTE_LINE
 
         proc.stdout.receive = flooding_receive
+    if b == "flood-then-exit":
+        # floods faster than anybody reads (the reader ends up parked on the full read stream), then dies by itself with
+        # output still in the pipe; the context is left only afterwards
+        orig_receive2 = proc.stdout.receive
+
+        async def fast_flood(max_bytes=65536):
+            if proc.stdout._chunks or proc.stdout._eof or proc.returncode is not None:
+                return await orig_receive2(max_bytes)
+            await asyncio.sleep(0.0001)
+            return NOTE_LINE
+
+        proc.stdout.receive = fast_flood
+
+        def die():
+            proc.stdout.feed(NOTE_LINE * 3)
+            proc.exit(0)
+        loop.call_later(0.05, die)
+    if b in ("grandchild-holds-stdout", "grandchild-keeps-writing"):
+        # a helper process inherited the child's stdout and outlives it: the pipe does not reach end-of-file when the
+        # child dies; the chatty variant keeps writing every 0.2 s for ever
+        proc.eof_on_exit = False
+        if b == "grandchild-keeps-writing":
+            orig_receive3 = proc.stdout.receive
+
+            async def chatty(max_bytes=65536):
+                if proc.stdout._chunks:
+                    return await orig_receive3(max_bytes)
+                await asyncio.sleep(0.2)
+                return NOTE_LINE
+
+            proc.stdout.receive = chatty
 
     async def open_delay():
         if b == "slow-start":
@@ -143,6 +174,8 @@ def run_one(ctl: explorer.Ctl, cfg: Dict[str, Any]) -> Dict[str, Any]:
             raise
 
     async def body(read, write):
+        if b == "flood-then-exit":
+            await asyncio.sleep(0.2)  # the child is dead by now, its last output still unread
         if mo == "before-first":
             pass
         elif mo == "in-flight":
@@ -367,6 +400,10 @@ def run_one(ctl: explorer.Ctl, cfg: Dict[str, Any]) -> Dict[str, Any]:
     for sp_ in pp.spawned:
         if (getattr(sp_, "kwargs", None) or {}).get("stderr") == _sp.PIPE:
             bad("stderr-piped-but-never-read", f"open_process(stderr=PIPE) with env {cfg.get('env')}")
+    # 0b. a child that is dead when the context has been left: its stdout pipe must have been read to the end (that is what
+    #     closes the descriptor); nothing is demanded when a helper process still holds the pipe open
+    if proc.returncode is not None and proc.eof_on_exit and not proc.stdout.eof_seen and not proc.stdout.closed:
+        bad("stdout-pipe-left-unread", "the child is dead but its stdout pipe was not read to end-of-file: the descriptor stays open")
     # 1. bounded exit
     if dur is None:
         bad("exit-not-reached", "the exit path was never taken")
@@ -537,6 +574,20 @@ def configs_for(tier: str):
                     if entry:
                         c["entry"] = entry
                     base.append(c)
+    # helper processes holding the child's stdout; a child that dies by itself with unread output in a blocked pipe
+    for b in ("grandchild-holds-stdout", "grandchild-keeps-writing", "flood-then-exit"):
+        for entry in (None, "transport", "with_initialize", "reuse-client"):
+            if entry == "with_initialize" and b == "flood-then-exit":
+                continue
+            for e in EXITS:
+                for m in MOMENTS:
+                    for sig in (None, "ignore-term"):
+                        c = {"behaviour": b, "exit": e, "moment": m, "order": "fifo"}
+                        if entry:
+                            c["entry"] = entry
+                        if sig:
+                            c["signals"] = sig
+                        base.append(c)
     # the body fails with an exception group (its own task group) or with a 'cancel scope' / JSON text the wrappers treat specially
     for entry in (None, "transport", "with_initialize", "reuse-client", "connect_to_server"):
         for b in ("well", "ignore-term", "ignore-both", "stdout-flood", "stdin-blocks", "exit-on-request"):
